@@ -232,7 +232,8 @@ def c_bo_read(eng, st, fr, f, args, site):
         return None
     ok = st.holds(vw["len"].sub(w), eng)
     eng.obligation(site["fr"], site["blk"], "ByteOrder", desc, ok, need="%s >= %d" % (vw["len"], w), st=st, reason="slice is long enough by guard facts")
-    name = "rd[%s@%s:%d:%s]" % (vw["base"] if not isinstance(vw["base"], tuple) else "arr", vw["off"], w, order)
+    # a signed read of the same bytes is a different number than the unsigned read: it gets its own symbol ("rds[..]")
+    name = "%s[%s@%s:%d:%s]" % ("rds" if (ii and ii[1]) else "rd", vw["base"] if not isinstance(vw["base"], tuple) else "arr", vw["off"], w, order)
     eng.events.append(("read", vw["base"], vw["off"], w, order, name, site["fr"].path))
     eng.rd_syms[name] = (vw["base"], vw["off"], w, order)
     if ii:
